@@ -143,6 +143,43 @@ def override_ladder(depth, use):
     return "\n".join(out) + "\n"
 
 
+def nested_control(depth, form):
+    """one function whose control flow is nested `depth` levels deep (if / else-if ladder / loop / switch / mixed); the
+    binding is touched at the innermost level: the walk over the statement tree is linear in its size"""
+    inner = "_ = u.x;"
+    if form == "else_if_ladder":
+        body = "if (c == 0) { _ = u.y; }" + "".join(" else if (c == %d) { _ = u.y; }" % k for k in range(1, depth)) + " else { %s }" % inner
+    else:
+        body = inner
+        for k in range(depth):
+            kind = form if form != "mixed" else ["if", "loop", "switch", "block", "else"][k % 5]
+            if kind == "if":
+                body = "if (c > %d) { %s }" % (k, body)
+            elif kind == "else":
+                body = "if (c > %d) { } else { %s }" % (k, body)
+            elif kind == "loop":
+                body = "loop { %s if (c > %d) { break; } }" % (body, k)
+            elif kind == "switch":
+                body = "switch (c) { case %d: { %s } default: { } }" % (k, body)
+            else:
+                body = "{ %s }" % body
+    return ("@group(0) @binding(0) var<uniform> u: vec4<f32>;\nfn work(c: i32) { %s }\n"
+            "@compute @workgroup_size(1) fn main() { work(1); }\n@fragment fn fs() { work(2); }\n" % body)
+
+
+def struct_diamond_two_spaces(depth, buffer_first):
+    """the struct diamond used by a buffer variable AND by a private variable (in either declaration order)"""
+    out = ["struct S0 { a: vec4<f32>, b: vec4<f32> }"]
+    for i in range(1, depth + 1):
+        out.append("struct S%d { a: S%d, b: S%d }" % (i, i - 1, i - 1))
+    decls = ["@group(0) @binding(0) var<storage, read> g0: S%d;" % depth, "var<private> cache: S%d;" % depth]
+    if not buffer_first:
+        decls.reverse()
+    out += decls + ["var<workgroup> shared_copy: S%d;" % max(0, depth - 1)]
+    out.append("@compute @workgroup_size(1) fn main() { _ = g0.a; }")
+    return "\n".join(out) + "\n"
+
+
 def mk(wgsl, family, depth):
     return {"wgsl": wgsl, "family": family, "opts": {}, "depth": depth}
 
@@ -163,6 +200,10 @@ def stages(rng, tier):
     for d in [4, 8, 16]:
         for use in ("workgroup_size", "body", "unused"):
             s1.append(mk(override_ladder(d, use), "override_ladder_" + use, d))
+    for d in [4, 8, 12]:
+        for form in ("if", "mixed", "else_if_ladder"):
+            s1.append(mk(nested_control(d, form), "nested_control_" + form, d))
+        s1.append(mk(struct_diamond_two_spaces(d, d % 8 == 0), "struct_diamond_two_spaces", d))
     s1.append(mk(fanout(12, 3, rng), "fanout", 12))
     s1.append(mk(wide_struct(20, 6), "wide_struct", 20))
     deep = [20, 24, 32, 48, 64] if tier != "thorough" else [20, 24, 28, 32, 40, 48, 56, 64, 96, 128]
@@ -179,6 +220,10 @@ def stages(rng, tier):
         s2.append(mk(struct_diamond(d, 4), "struct_diamond", d))
     for d in [18, 22, 26, 28]:
         s2.append(mk(struct_tower(d), "struct_tower", d))
+    for d, form in ((32, "if"), (48, "if"), (40, "else_if_ladder"), (30, "mixed"), (38, "mixed"), (100, "else_if_ladder")):
+        s2.append(mk(nested_control(d, form), "nested_control_" + form, d))
+    for d, bf in ((18, True), (20, False), (22, True)):
+        s2.append(mk(struct_diamond_two_spaces(d, bf), "struct_diamond_two_spaces", d))
     for (nh, ns) in [(50, 5), (150, 10), (300, 20)]:
         s2.append(mk(fanout(nh, ns, rng), "fanout", nh))
     s2.append(mk(wide_struct(200, 16), "wide_struct", 200))
